@@ -58,6 +58,13 @@ def check(out, ctx):
         # texts whose bytes matter: CRLF line ends, raw CR / LF / TAB inside literals, trailing blanks, no final newline
         directed = ["@export @no_skip_ws Line = 'a\r\nb' $;\r\n", "@export @no_skip_ws Line = \"a\r\nb\" 'c\rd' 'e\nf' 'g\th' $;\n",
                     "@export R = 'x' 'y';   \n\n\n", "@export R = 'x' 'y';", "# c\r\n@export R = 'x' # d\r\n 'y';\r\n"]
+        # grammars that share rule names but not rule positions, compiled one after the other by the in-process
+        # routes (the harness process runs Compile for all of them): the output must not depend on what the
+        # process generated before
+        directed += ["@export A = 'a' >Tail;\nTail = t:T;\nT = 't';\nU = 'u';\n",
+                     "@export A = 'a' >Tail;\nX = x:U;\nTail = t:T;\nT = 't';\nU = 'u';\n",
+                     "@export A = 'a' >Tail [>X];\nU = 'u';\nT = 't';\nX = x:U;\nTail = t:T u:U;\n",
+                     "@export A = 'a' >Tail;\nTail = t:T;\nT = 't';\nU = 'u';\n# again\n"]
         for j, (i, gg, text) in enumerate(list(gs)[:4]):
             directed.append(text.replace("\n", "\r\n"))
         for j, text in enumerate(directed):
@@ -118,6 +125,32 @@ def check(out, ctx):
                               {"grammar": text, "result": r, "dest_head": body[:300]})
             if len(samples) < 3:
                 samples.append({"grammar": text.split("\n")[0][:120], "code_bytes": len(code), "routes_equal": True})
+        # one process, many grammars: every grammar compiled again by ONE harness process, in sequence and in
+        # reverse, must give the code its own fresh process gave (no state survives a generation)
+        fresh_code = {}
+        for (i, gg, text) in gs:
+            gp = os.path.join(tmp, "g%s.ebnf" % i)
+            o = subprocess.run([front, "gen", gp], stdout=subprocess.PIPE, text=True).stdout
+            if o.startswith("CODE\n"):
+                fresh_code[i] = o[5:].strip()
+        same_process = 0
+        for tag, order in (("fwd", list(fresh_code)), ("rev", list(reversed(list(fresh_code))))):
+            reqs, dests = [], []
+            for i in order:
+                dest = os.path.join(tmp, "h%s_%s.rs" % (tag, i))
+                dests.append(dest)
+                reqs.append("compile\tfile\t%s\t%s\t0\t" % (os.path.join(tmp, "g%s.ebnf" % i), dest))
+            res = vp.pipe_lines(ctx.direct, reqs)
+            for i, dest, r in zip(order, dests, res):
+                body = open(dest, encoding="utf-8").read() if os.path.exists(dest) else ""
+                evaluations += 1
+                same_process += 1
+                if r.split("\t")[0] != "OK" or strip_header(body) != fresh_code[i]:
+                    text = [t for (j, _, t) in gs if j == i][0]
+                    out.violation("c16:history:%s:%s" % (tag, i),
+                                  "a grammar compiled after other grammars in the same process gives different code than in a fresh process",
+                                  {"grammar": text, "compiled_before_it_in_this_process": [t for (j, _, t) in gs if j in order[:order.index(i)]][-3:],
+                                   "result": r[:200], "order": tag})
         # the build-script route with settings: derives and user context type, in both orders of the
         # builder calls, against the library call with the same settings
         hooks_text = None
@@ -195,7 +228,7 @@ def check(out, ctx):
                                       {"grammar": a.text, "input": x, "library": u[:300], "macro": v[:300],
                                        "macro_literal": b.meta.get("macro_lit"), "macro_call": genrun.macro_call(b)[:400]})
         out.coverage.update({
-            "evaluations": evaluations, "distinct_nontrivial": len(distinct),
+            "evaluations": evaluations, "compiled_again_in_one_process": same_process, "distinct_nontrivial": len(distinct),
             "rule": "generated grammars and repository grammars; each compiled by the library call in 5 fresh processes (different environment), by the peginator-cli binary, by Compile::run, and (a few) through peginate!; distinct = distinct generated code texts",
             "samples": samples, "macro_route_results_compared": compared, "cli_derive_lists_compared": len(cli_opts), "buildscript_settings_compared": bs_settings,
         })
